@@ -1320,7 +1320,15 @@ br_ssl_engine_current_state(const br_ssl_engine_context *cc)
 void
 br_ssl_engine_flush(br_ssl_engine_context *cc, int force)
 {
-	if (!br_ssl_engine_closed(cc) && (cc->application_data & 1) != 0) {
+	/*
+	 * With a shared input/output buffer, the engine may be in
+	 * input-only mode (an incoming record is partially received):
+	 * it is then not ready to accept payload bytes, and assembling a
+	 * record (even an empty one) would overwrite the received bytes.
+	 */
+	if (!br_ssl_engine_closed(cc) && (cc->application_data & 1) != 0
+		&& cc->iomode != BR_IO_IN)
+	{
 		sendpld_flush(cc, force);
 	}
 }
